@@ -268,7 +268,8 @@ def buckets(tier):
     for fam in single:
         bl.append(Bucket('op:' + fam,
                          (lambda fam=fam: pairing_cases(tier, first=fam, families=CHEAP_TAIL, max_len=3, min_len=1)),
-                         prop_pairing, {'quick': 40, 'thorough': 400}, nontrivial=_nontrivial, classes=_classes,
+                         prop_pairing, {'quick': 80 if fam in ('fft', 'set', 'rmw', 'reshape', 'bcast', 'pow') else 40, 'thorough': 400},
+                         nontrivial=_nontrivial, classes=_classes,
                          weight=3.0 if fam in ('special', 'unp', 'eigh', 'svd', 'fft') else 1.0))
     # (minimum/maximum of tracer nodes fall through to numpy.minimum on objects, which *selects one operand at recording time*:
     #  data-dependent control flow, outside the property's domain of straight-line programs)
